@@ -4,7 +4,7 @@
 
 use crate::disk::SimDisk;
 use crate::model::RefGraph;
-use crate::obs::{guarded, observe, Caught, Obs};
+use crate::obs::{guarded, observe, observe_keys, Caught, Obs};
 use crate::plan::{Cfg, Id, PLabel, Step};
 use crate::rng::H64;
 use crate::stats::Stats;
@@ -104,6 +104,14 @@ impl<const N: usize> Exec<N> {
         )));
         sodg::verif::fs::install(Some(disk.clone()));
         sodg::verif::collections::set_hash_seed(cfg.hash_seed ^ cfg.hash_xor);
+        log::set_max_level(match cfg.log_level {
+            0 => log::LevelFilter::Off,
+            1 => log::LevelFilter::Error,
+            2 => log::LevelFilter::Warn,
+            3 => log::LevelFilter::Info,
+            4 => log::LevelFilter::Debug,
+            _ => log::LevelFilter::Trace,
+        });
         let view = View::new(cfg);
         let n = view.insts.len();
         Self {
@@ -419,9 +427,11 @@ impl<const N: usize> Exec<N> {
                 );
             }
         };
-        // 2. observe
+        // 2. observe — fully, or (swarm knob `sweep_every`) keys only between every k-th operation
         let g = self.gs[i].as_ref().unwrap();
-        let obs = match observe(g, &probes, false) {
+        let k = self.view.cfg.sweep_every;
+        let full = k <= 1 || self.view.insts[i].as_ref().unwrap().age % (k as u64) == 0;
+        let obs = match if full { observe(g, &probes, false) } else { observe_keys(g) } {
             Ok(o) => o,
             Err(c) => {
                 return fail(
@@ -500,7 +510,19 @@ impl<const N: usize> Exec<N> {
                         "probe.add_fresh_id"
                     });
                     // C04: blank slate
-                    if let Some(vo) = obs.verts.iter().find(|x| x.v == *v) {
+                    let single;
+                    let found = if full {
+                        obs.verts.iter().find(|x| x.v == *v)
+                    } else if obs.keys.contains(v) {
+                        // keys-only step: look at the new vertex alone
+                        let g = self.gs[i].as_ref().unwrap();
+                        let kids = guarded(|| g.kids(*v).map(|(l, t)| (PLabel::from_label(l), *t)).collect::<Vec<_>>()).unwrap_or_default();
+                        single = crate::obs::VObs { v: *v, kids, probes: Vec::new(), vprint: String::new(), inspect: String::new() };
+                        Some(&single)
+                    } else {
+                        None
+                    };
+                    if let Some(vo) = found {
                         let vp = if vo.vprint.is_empty() {
                             let g = self.gs[i].as_ref().unwrap();
                             guarded(|| g.v_print(*v).unwrap_or_default()).unwrap_or_default()
@@ -682,9 +704,11 @@ impl<const N: usize> Exec<N> {
                 *soft = Some(f);
             }
         }
-        if let Err(f) = check_edges(&obs, &inst.m, &probes) {
-            if soft.is_none() {
-                *soft = Some(f);
+        if full {
+            if let Err(f) = check_edges(&obs, &inst.m, &probes) {
+                if soft.is_none() {
+                    *soft = Some(f);
+                }
             }
         }
         inst.last_obs = obs;
@@ -715,7 +739,8 @@ impl<const N: usize> Exec<N> {
             if inst.poisoned {
                 continue;
             }
-            let obs = match observe(g, &probes, false) {
+            let reduced = self.view.cfg.sweep_every > 1 && self.view.steps_done % self.view.cfg.sweep_every != 0;
+            let obs = match if reduced { observe_keys(g) } else { observe(g, &probes, false) } {
                 Ok(o) => o,
                 Err(c) => return fail("query.panic", clauses::PANIC_Q, format!("{c:?}")),
             };
@@ -833,6 +858,10 @@ impl<const N: usize> Exec<N> {
                     format!("{op:?}: instance {i} answered {ret:?}, its {kind:?} twin {f} answered {fret:?}"),
                 );
             }
+            let k = self.view.cfg.sweep_every;
+            if k > 1 && self.view.insts[i].as_ref().unwrap().age % (k as u64) != 0 {
+                continue;
+            }
             let (a, b) = (self.deep(i)?, self.deep(f)?);
             if let Some(d) = a.diff(&b) {
                 return fail(
@@ -847,6 +876,35 @@ impl<const N: usize> Exec<N> {
         }
         self.check_untouched(&touched)?;
         Ok(ret)
+    }
+
+    /// End of run: one full sweep of every live graph against its model (runs with a reduced
+    /// observation rate must not end without one).
+    pub fn final_sweep(&mut self) -> Result<(), Failure> {
+        let probes = self.view.probe_labels();
+        for i in 0..self.gs.len() {
+            if !self.usable(i) || self.view.insts[i].as_ref().unwrap().poisoned {
+                continue;
+            }
+            let obs = match observe(self.gs[i].as_ref().unwrap(), &probes, false) {
+                Ok(o) => o,
+                Err(c) => return fail("query.panic", clauses::PANIC_Q, format!("final sweep: {c:?}")),
+            };
+            let inst = self.view.insts[i].as_ref().unwrap();
+            if obs.keys != inst.m.keys() && !inst.m.adoptive {
+                let f = fail::<()>("alive-set.differs-from-model", clauses::ALIVE, format!("final sweep of instance {i}: keys()={:?}, reference model={:?}", obs.keys, inst.m.keys())).unwrap_err();
+                if self.owned(&f) {
+                    return Err(f);
+                }
+                continue;
+            }
+            if let Err(f) = check_edges(&obs, &inst.m, &probes) {
+                if self.owned(&f) {
+                    return Err(f);
+                }
+            }
+        }
+        Ok(())
     }
 
     /// Does the property this run is judged for own the failure? (No property: every clause counts.)
